@@ -86,20 +86,18 @@ Definition cxt_admissibleb (K : sctx) : bool :=
   && forallb cxt_name_okb (sc_onames K) && forallb cxt_name_okb (sc_anames K)
   && match sc_onames K with (c :: _) :: _ => negb (is_space c) | _ => false end.
 
-(* csv, as the property states it: no name contains the separator or a line break, the two words
-   are distinct and contain neither the separator nor white space, the separator is not a line break *)
+(* csv (one-character separator): no name contains the separator or a line break, the two words
+   are distinct and contain neither the separator nor a line break, the separator is not a line
+   break.  White space is allowed everywhere (read_csv strips '\n' only, since bd678e6). *)
 Definition CR : N := 13%N.
 Definition csv_name_okb (sep : N) (s : str) : bool :=
   negb (has_char sep s) && negb (has_char NL s) && negb (has_char CR s).
-Definition csv_word_okb (sep : N) (w : str) : bool := negb (has_char sep w) && forallb (fun c => negb (is_space c)) w.
-Definition csv_statedb (sep : N) (wt wf : str) (K : sctx) : bool :=
+Definition csv_word_okb (sep : N) (w : str) : bool :=
+  negb (has_char sep w) && negb (has_char NL w) && negb (has_char CR w).
+Definition csv_admissibleb (sep : N) (wt wf : str) (K : sctx) : bool :=
   table_okb K && negb (N.eqb sep NL) && negb (N.eqb sep CR)
   && forallb (csv_name_okb sep) (sc_onames K) && forallb (csv_name_okb sep) (sc_anames K)
   && csv_word_okb sep wt && csv_word_okb sep wf && negb (str_eqb wt wf).
-(* finding D21: read_csv strips the text, which eats a leading white-space separator *)
-Definition D21_guard (sep : N) : bool := negb (is_space sep).
-Definition csv_admissibleb (sep : N) (wt wf : str) (K : sctx) : bool :=
-  csv_statedb sep wt wf K && D21_guard sep.
 
 (* many-valued: sizes agree, attribute names are distinct (they key a dict), cells fit their
    structure, integer sets are canonical *)
